@@ -570,4 +570,8 @@ class ClientGenerator:
                 if diff:
                     has_diff = True
                     print("\n".join(diff))
+            else:
+                # A file that would be generated now is missing from the existing output
+                has_diff = True
+                print(f"Missing file in existing output: {old_file}")
         return has_diff
